@@ -32,6 +32,11 @@ CODE = {f: i for i, f in enumerate(FORMATS)}
 SIGNED = {f: f[0] in "iI" for f in FORMATS}
 REP = {"I24": "i32", "U24": "i32", "I48": "i64", "U48": "i64"}
 PAIRS = [(s, d) for s in FORMATS for d in FORMATS if s != d]
+# the diagonal: `x.to_sample::<Self>()` dispatches to the blanket `impl<S> FromSample<S> for S` (identity); it is what
+# add_amp / to_signed_sample of every signed format run through, generic code converts "to the same format" whenever its
+# two type parameters coincide, and the rescaling formula gives z itself there (c01_same_format)
+IDENT = [(s, s) for s in FORMATS]
+ALL_PAIRS = PAIRS + IDENT
 TEST_CONV = os.environ.get("DASP_CONV_RS")  # TESTING ONLY: pretend /repo's conv.rs were this file
 TEST_TYPES = os.environ.get("DASP_TYPES_RS")  # TESTING ONLY: pretend /repo's types.rs were this file
 TEST_MODE = bool(TEST_CONV or TEST_TYPES)
@@ -138,13 +143,13 @@ def gen_items(rng, tier):
     for mode in MODES:  # the crate's own constants and validity check against the generated format table
         for f in FORMATS:
             items.append(dict(kind="consts", mode=mode, s=f, d=f, vals=[], line=f"consts {CODE[f]} 0"))
-    for (s, d) in PAIRS:
+    for (s, d) in ALL_PAIRS:
         r = rng.fork(f"{s}>{d}")
         if BITS[s] == 8:
             vals = list(range(fmin(s), fmax(s) + 1))
             kinds = [("exhaustive", vals)]
         else:
-            kinds = [("boundary", boundary(s)), ("random", randoms(r, s, n_rand))]
+            kinds = [("boundary", boundary(s)), ("random", randoms(r, s, n_rand if s != d else n_rand // 5))]
             if BITS[s] == 16 and tier == "thorough":
                 kinds = [("boundary", boundary(s))]  # every value is covered by the digest sweep below
         mal = malformed(r, s, n_mal)
@@ -207,6 +212,8 @@ def correspond(bins, items, tag):
 
 
 def fn_name(S, s, d):
+    if s == d:
+        return "conv.rs `impl<S> FromSample<S> for S` (the blanket identity impl)"
     if S is None:
         return f"conv::{s.lower()}::to_{d.lower()}"
     m, fn = S.dispatch[(s, d)]
@@ -316,7 +323,7 @@ def oracle_lines(rng, tier, mode, for_search=False):
     """(line, pair, count) triples for profile `mode`"""
     out = []
     quick = tier == "quick"
-    for (s, d) in PAIRS:
+    for (s, d) in ALL_PAIRS:
         b = BITS[s]
         c = f"{CODE[s]} {CODE[d]}"
         lo = fmin(s)
@@ -478,6 +485,7 @@ def scratch_harness():
     F.ensure_dir(os.path.join(h, "src", "bin"))
     shutil.copy(os.path.join(F.HARNESS, "src", "lib.rs"), os.path.join(h, "src", "lib.rs"))
     shutil.copy(os.path.join(F.HARNESS, "src", "bin", "c01.rs"), os.path.join(h, "src", "bin", "c01.rs"))
+    shutil.copy(os.path.join(F.HARNESS, "src", "direct.rs"), os.path.join(h, "src", "direct.rs"))
     F.write_if_changed(os.path.join(h, "Cargo.toml"),
                        '[package]\nname = "dasp_verif_harness"\nversion = "0.0.0"\nedition = "2018"\npublish = false\n\n[workspace]\n\n'
                        f'[dependencies]\ndasp_sample = {{ path = "{ds}" }}\n\n'
@@ -547,7 +555,7 @@ def model_search(S, only_pairs=None):
     if not ok:
         return None, "model does not build: " + log[-800:]
     exprs = []
-    pairs = only_pairs or PAIRS
+    pairs = only_pairs or ALL_PAIRS
     for (s, d) in pairs:
         vals = boundary(s) if BITS[s] > 8 else list(range(fmin(s), fmax(s) + 1))
         exprs.append(f"(({CODE[s]}, {CODE[d]}), spec_bad 0 {CODE[s]} {CODE[d]} [" + "; ".join(zt(v) for v in vals) + "])")
@@ -769,7 +777,7 @@ def collect_stats(stats, items, obs):
         n = it["n"] if it["kind"] == "range" else 1 if it["kind"] == "consts" else len(it["vals"])
         stats["values"] += n
         for key in (f"kind:{it['kind']}", f"profile:{PROFILES[it['mode']][0]}",
-                    f"src_bits:{BITS[s]}", "dir:" + ("narrow" if BITS[d] < BITS[s] else "widen" if BITS[d] > BITS[s] else "same-width"),
+                    f"src_bits:{BITS[s]}", "dir:" + ("narrow" if BITS[d] < BITS[s] else "widen" if BITS[d] > BITS[s] else "same-format (blanket identity impl)" if s == d else "same-width"),
                     "sign:" + ("s" if SIGNED[s] else "u") + ">" + ("s" if SIGNED[d] else "u")):
             hist[key] = hist.get(key, 0) + n
         if it["kind"] != "range":
@@ -802,7 +810,7 @@ def finish(rep, info, tier, stats, times):
         "evaluations": stats.get("values", 0) + stats.get("oracle", 0),
         "model_vs_crate_evaluations": stats.get("values", 0), "crate_vs_i128_oracle_evaluations": stats.get("oracle", 0),
         "distinct_nontrivial": stats.get("nontrivial", 0),
-        "rule": "model-vs-crate: all 132 Sample::to_sample pairs x {debug, release, relchk = optimised with overflow checks on and debug assertions off (8-bit exhaustive, boundary and out-of-range sets; thorough: + a third of the random set; compared with the Checked model)}; every value of 8-bit sources, boundary-structured values (MIN, MIN+1, +-2^k+-1 on value and amplitude, -1, 0, 1, MAX-1, MAX, every k) plus random values of wider sources (700 per pair quick / 6000 thorough; thorough: every value of 16-bit sources by digest), out-of-range representation values of I24/U24/I48/U48; every result of a 24/48-bit target must satisfy T::new(r) == Some(r) (the crate's own validity check, observed as a flag); the crate's MIN/MAX/EQUILIBRIUM constants and T::new at the range ends against the generated format table; crate-vs-oracle: exhaustive <=16-bit (quick), <=24-bit and 32-bit in release (thorough), random + strided sweeps otherwise. non-trivial = distinct (pair, value) in the model-vs-crate set with a narrowing conversion of a negative amplitude that is not a multiple of the step (floor and truncation differ)",
+        "rule": "entry points: every value goes through Sample::to_sample, Sample::from_sample, ToSample::to_sample_, FromSample::from_sample_, both of those again with only a `Duplex<_>` bound in scope, and the module function conv::<src>::to_<dst> (harness/src/direct.rs); the observation is `0 r` only if all seven agree (the sweeps against the i128 oracle use to_sample, from_sample and the module function). model-vs-crate: all 132 Sample::to_sample pairs + the 12 same-format conversions (blanket identity impl; model: Ok z, c01_same_format) x {debug, release, relchk = optimised with overflow checks on and debug assertions off (8-bit exhaustive, boundary and out-of-range sets; thorough: + a third of the random set; compared with the Checked model)}; every value of 8-bit sources, boundary-structured values (MIN, MIN+1, +-2^k+-1 on value and amplitude, -1, 0, 1, MAX-1, MAX, every k) plus random values of wider sources (700 per pair quick / 6000 thorough; thorough: every value of 16-bit sources by digest), out-of-range representation values of I24/U24/I48/U48; every result of a 24/48-bit target must satisfy T::new(r) == Some(r) (the crate's own validity check, observed as a flag); the crate's MIN/MAX/EQUILIBRIUM constants and T::new at the range ends against the generated format table; crate-vs-oracle: exhaustive <=16-bit (quick), <=24-bit and 32-bit in release (thorough), random + strided sweeps otherwise. non-trivial = distinct (pair, value) in the model-vs-crate set with a narrowing conversion of a negative amplitude that is not a multiple of the step (floor and truncation differ)",
         "samples": stats.get("samples", []), "input_distribution": stats.get("hist", {}), "disagreements": stats.get("bad", 0),
         "timing": dict(times, coq_s=info.get("coq_s")),
         "float_translation_validation": stats.get("float", {}),
